@@ -1,13 +1,113 @@
 /-
-  Driver.OpsC18 — protocol operations for property C18 (filled in by the C18 work package).
-  Contract: `handleC18 op` returns the parser for operation `op` or `none` if `op` is not one of
-  this property's operations.
+  Driver.OpsC18 — protocol operations for property C18.
+
+  c18fb   <hex content> <k> off…                 fallback parser on the prefixes `content[:off]`
+          → r=<none | b,e,enchex,xmllen>/…
+  c18pay  <h> <b64|raw> <size> <declared> <hex data> <k> off…
+          → r=<none | hex bytes>:<0|1>/…         NoCompressor on `data[:off]`, then the length assertion
+  c18comp <h> <b64|raw> <size> <declared> <n> {<hex compressed> <hex plain>}… <hex data> <k> off…
+          → r=…                                  CompressorBase with the codec given as a finite table
+  c18run  <ignSrc> <ignRef> <ok|io|other> <ok|io|other> (dom | raise | f <n> status…)
+          → exit=<n> | raises
 -/
-import Driver.Proto
-namespace Fc.Drv
+import Driver.OpsC13
+import FcModel.Truncation
+namespace Fc.Drv.C18
+open Fc.W Fc.Drv Fc.Drv.C13
+
+def pEnc : P Enc := do
+  let t ← tok
+  match t with
+  | "b64" => pure b64E
+  | "raw" => pure rawE
+  | _ => failure
+
+def showOptBytes (o : Option Bytes) : String :=
+  match o with
+  | none => "none"
+  | some b => hexOfBytes b
+
+def opC18Fb : P String := do
+  let content ← pHex
+  let offs ← pList pNat
+  let one (off : Nat) : String :=
+    match fallback (content.take off) with
+    | none => "none"
+    | some r =>
+      -- positions are re-derived for the reply (the record holds the slices)
+      match appendixPositions (content.take off) with
+      | some (b, e) => s!"{b},{e},{hexOfBytes r.encoding},{r.xmlPart.length}"
+      | none => "none"
+  pure s!"r={joinStr "/" (offs.map one)}"
+
+def opC18Pay : P String := do
+  let h ← pNat
+  let E ← pEnc
+  let size ← pNat
+  let declared ← pNat
+  let data ← pHex
+  let offs ← pList pNat
+  let one (off : Nat) : String :=
+    let r := noCompReadE h E (data.take off)
+    s!"{showOptBytes r}:{showBool (checkDeclared size declared r).isSome}"
+  pure s!"r={joinStr "/" (offs.map one)}"
+
+def opC18Comp : P String := do
+  let h ← pNat
+  let E ← pEnc
+  let size ← pNat
+  let declared ← pNat
+  let table ← pList (do let c ← pHex; let d ← pHex; pure (c, d))
+  let data ← pHex
+  let offs ← pList pNat
+  let decompress (b : Bytes) : Option Bytes := (table.find? (·.1 == b)).map (·.2)
+  let one (off : Nat) : String :=
+    let r := compReadE h E decompress (data.take off)
+    s!"{showOptBytes r}:{showBool (checkDeclared size declared r).isSome}"
+  pure s!"r={joinStr "/" (offs.map one)}"
+
+def pRead : P Read := do
+  let t ← tok
+  match t with
+  | "ok" => pure .ok
+  | "io" => pure (.raised .io)
+  | "other" => pure (.raised .other)
+  | _ => failure
+
+def pFStatus : P FStatus := do
+  let t ← tok
+  match t with
+  | "passed" => pure .passed
+  | "failed" => pure .failed
+  | "error" => pure .error
+  | "missing_source" => pure .missingSource
+  | "missing_reference" => pure .missingReference
+  | "filtered" => pure .filtered
+  | _ => failure
+
+def opC18Run : P String := do
+  let ignSrc ← pBool
+  let ignRef ← pBool
+  let res ← pRead
+  let ref ← pRead
+  let k ← tok
+  let cmp ← match k with
+    | "dom" => pure Cmp.domainMismatch
+    | "raise" => pure Cmp.raised
+    | "f" => do let st ← pList pFStatus; pure (Cmp.fields st)
+    | _ => failure
+  match runFileMode ignSrc ignRef res ref cmp with
+  | .ok n => pure s!"exit={n}"
+  | .error _ => pure "exit=raises"
 
 def handleC18 (op : String) : Option (P String) :=
   match op with
+  | "c18fb" => some opC18Fb
+  | "c18pay" => some opC18Pay
+  | "c18comp" => some opC18Comp
+  | "c18run" => some opC18Run
   | _ => none
 
-end Fc.Drv
+end Fc.Drv.C18
+
+def Fc.Drv.handleC18 := Fc.Drv.C18.handleC18
